@@ -37,6 +37,38 @@ Proof. repeat split; vm_compute; reflexivity. Qed.
 Lemma k1_ops_bounded : run_bounded k1_cfg (cluster_init k1_cfg) k1_ops.
 Proof. cbn [run_bounded k1_ops]. repeat split; vm_compute; discriminate. Qed.
 
+(* ---- the C01-K2 history extended in the same way (C02-K2) -------------------------------------------------
+
+   leader 3 writes X at 1 locally only; leader 1 (1,2,2) commits Y at 1 on {1,2} and checkpoints watermark 1;
+   (1,3,3) is installed on node 2 with node 1's identity-page reply lost: node 2 truncates Y (C01-K2); node 1
+   goes down, (1,4,4) is installed on node 3 (quorum LEO 0: node 3 drops X), which commits twice on {3,2}:
+   node 1 considers offset 1 committed with Y, nodes 2 and 3 with the new entry *)
+Definition k1_r4 : record := Rec (TUser 4) 1 4 44 1 false 1.
+Definition k2_ops : list qop :=
+  [ OInstall 3 (1, 1, 1) false 2 no_faults;
+    OCommit 3 (1, 1, 1) (TUser 1) [k1_r1] false (Flt [] [1; 2] None []);
+    OInstall 1 (1, 2, 2) false 2 no_faults;
+    OCommit 1 (1, 2, 2) (TUser 2) [k1_r2] false no_faults; OCheckpoint 1 1;
+    OInstall 2 (1, 3, 3) false 2 (Flt [] [] None [1]);
+    ODown 1; OInstall 3 (1, 4, 4) false 2 no_faults;
+    OCommit 3 (1, 4, 4) (TUser 3) [k1_r3] false no_faults;
+    OCommit 3 (1, 4, 4) (TUser 4) [k1_r4] false no_faults ].
+
+Lemma k2_checkpointed_entry_replaced :
+  let c := snd (run_model k1_cfg (cluster_init k1_cfg) k2_ops) in
+  fst (run_model k1_cfg (cluster_init k1_cfg) k2_ops) =
+    [ RInstalled (1, 1, 1) 0 0; RErr EQuorumUnavailable; RInstalled (1, 2, 2) 0 0;
+      RReceipt (1, 2, 2) (TUser 2) 1 1 1; RBool true; RInstalled (1, 3, 3) 0 0; RNone;
+      RInstalled (1, 4, 4) 0 0; RReceipt (1, 4, 4) (TUser 3) 1 1 1; RReceipt (1, 4, 4) (TUser 4) 2 2 2 ] /\
+  option_map i_cmd (committed_entry c 1 1) = Some (TUser 2) /\
+  option_map i_cmd (committed_entry c 2 1) = Some (TUser 3) /\
+  option_map i_cmd (committed_entry c 3 1) = Some (TUser 3) /\
+  C02_monitor (model_case k1_cfg k2_ops) = 3.
+Proof. repeat split; vm_compute; reflexivity. Qed.
+
+Lemma k2_ops_bounded : run_bounded k1_cfg (cluster_init k1_cfg) k2_ops.
+Proof. cbn [run_bounded k2_ops]. repeat split; vm_compute; discriminate. Qed.
+
 (* ---- bounded exhaustive checks ------------------------------------------------------------------------------ *)
 
 Fixpoint schedules02 (alphabet : list qop) (len : nat) : list (list qop) :=
